@@ -5,6 +5,7 @@ import (
 
 	"verifharness/bmx"
 	"verifharness/hx"
+	"verifharness/stx"
 )
 
 func TestC05(t *testing.T) {
@@ -20,4 +21,9 @@ func TestC05(t *testing.T) {
 		"and both allocators; old 0..3, current 0..3, new 1..3, spare 0..3, blocks of 1..6 sectors of 1..16 bytes, sizes biased to 0,1,block,block+1; " +
 		"non-trivial = at least one block was released (a rotation happened); distinct by script hash")
 	bmx.Main(run, model, "C05", 0, run.Report)
+	// the same property at the level of the blob access: real flat / hierarchical / AC stores; a successful Get or a
+	// FindMissing "present" is the touch, survival is checked against the number of NewBlock calls since
+	if run.Findings() == 0 {
+		stx.Main(run, model, "C05store", []string{"C05"}, []string{"flat", "flati", "hier", "hier", "ac"}, 1200, 24000)
+	}
 }
